@@ -605,14 +605,18 @@ def expand(template_path, tree):
             fn_disp = "%s :: %s" % (f, ex.path)
             body = item.body
             if ex.fragment:
-                a_rx, b_rx = re.compile(_tok_regex(ex.fragment[0])), re.compile(_tok_regex(ex.fragment[1]))
+                # an anchor starting with `^` is exclusive (fragment starts after / ends before it)
+                fa, fb = ex.fragment
+                xa, xb = fa.startswith("^"), fb.startswith("^")
+                fa, fb = fa.lstrip("^"), fb.lstrip("^")
+                a_rx, b_rx = re.compile(_tok_regex(fa)), re.compile(_tok_regex(fb))
                 ma = list(a_rx.finditer(body))
                 if len(ma) != 1:
-                    raise LostAnchor("%s: fragment start `%s` matched %d times" % (fn_disp, ex.fragment[0][:60], len(ma)))
-                mb = [m for m in b_rx.finditer(body) if m.end() >= ma[0].end() or ex.fragment[0] == ex.fragment[1]]
+                    raise LostAnchor("%s: fragment start `%s` matched %d times" % (fn_disp, fa[:60], len(ma)))
+                mb = [m for m in b_rx.finditer(body) if m.start() >= ma[0].end() or (fa == fb and not xa)]
                 if len(mb) < 1:
-                    raise LostAnchor("%s: fragment end `%s` not found" % (fn_disp, ex.fragment[1][:60]))
-                body = body[ma[0].start():mb[0].end()]
+                    raise LostAnchor("%s: fragment end `%s` not found" % (fn_disp, fb[:60]))
+                body = body[(ma[0].end() if xa else ma[0].start()):(mb[0].start() if xb else mb[0].end())]
                 gen.drops.append("%s: only the statement range `%s` .. `%s` is extracted (fragment); the rest of the function is not verified" %
                                  (fn_disp, ex.fragment[0][:50], ex.fragment[1][:50]))
                 if not ex.sig and not ex.splice:
